@@ -420,7 +420,12 @@ class Heap:
     def fd(self, cls, name) -> FieldDecl:
         fd = self.schema.lookup(cls, name)
         if fd is None:
-            raise Unsupported(f"field {cls}.{name} has no declaration in the sidecar schema")
+            if name.startswith("$") or not getattr(self.schema, "auto_declare", True):
+                raise Unsupported(f"field {cls}.{name} has no declaration in the sidecar schema")
+            # an attribute the sidecar does not know (e.g. newly introduced by a change): an opaque slot per object
+            fd = self.schema.declare(cls, name, ANY)
+            fd.auto = True
+            self.schema.auto_fields = getattr(self.schema, "auto_fields", []) + [fd.key]
         return fd
 
     def get(self, ref: SV, name: str) -> SV:
@@ -447,6 +452,9 @@ class Heap:
         return self._arr(self.schema.fields[fdkey])
 
 
+bool2u = z3.Function("bool2u", z3.BoolSort(), U)   # a bool / int / None stored in an opaque slot
+int2u = z3.Function("int2u", z3.IntSort(), U)
+NONE_U = z3.Const("None_as_object", U)
 COERCE_HOOKS: list = []  # functions (val, ty) -> SV | None, registered by sidecar modules for union-like slots
 
 
@@ -483,6 +491,12 @@ def coerce(val: SV, ty: Ty) -> SV:
     if k == "any":
         if val.ty.kind == "any":
             return val
+        if val.ty.kind == "bool":
+            return SV(ANY, bool2u(val.v))
+        if val.ty.kind == "int":
+            return SV(ANY, int2u(val.v))
+        if val.ty.kind == "none":
+            return SV(ANY, NONE_U)
         raise Unsupported(f"cannot store {val.ty!r} in an opaque slot")
     if k in ("str", "bytes") and val.ty.kind == k:
         return val
